@@ -154,7 +154,7 @@ class C12(Check):
     sources = ('cssutils/parse.py', 'cssutils/prodparser.py', 'cssutils/tokenize2.py', 'cssutils/errorhandler.py',
                'cssutils/util.py', 'cssutils/__init__.py', 'cssutils/script.py', 'cssutils/profiles.py',
                'cssutils/serialize.py', 'cssutils/stylesheets/mediaquery.py', 'cssutils/stylesheets/medialist.py',
-               'cssutils/css/cssimportrule.py', 'conftest.py')
+               'cssutils/css/cssimportrule.py', 'cssutils/settings.py', 'cssutils/cssproductions.py', 'conftest.py')
     trusted_base = (
         'hand-written models Model/GlobalsProd.lean (ProdParser.parse, Choice/Sequence.nextProd, _SorTokens, savedTokens, '
         '_pushed) and Model/Globals.lean (CSSParser entry points, __parseSetting, csscombine, the indentSpecificities memo), '
@@ -162,7 +162,11 @@ class C12(Check):
         'the abstraction of a call body as a script of log calls / @import fetches / production-parser call trees: '
         'completeness of that alphabet rests on the writer table (Gen/C12Sites.lean, AST scan) and on the '
         'implementation-side snapshot of all module-level state around every call',
-        'tools/harness/c12_*.py (generators, canonical observations, worker processes) and tools/gen/c12_sites.py',
+        'hand-written model Model/GlobalsMemo.lean (_TOKENIZER_CACHE look-up, settings.set, _expand_macros / '
+        '_compile_productions up to re.compile, LazyRegex), tied by the memo correspondence of this run (real MACROS / '
+        'PRODUCTIONS, every pattern text compared) and by the regenerated table of all module-level mutables and writers',
+        'tools/harness/c12_*.py (generators, canonical observations, worker processes), tools/gen/c12_sites.py and '
+        'tools/gen/c12_mutables.py (objects are recognised by name; aliases through parameters / locals are not followed)',
     )
     assumptions = (
         'user callbacks (fetchers) may call the library but do not assign cssutils.log.raiseExceptions, preferences or '
@@ -170,7 +174,9 @@ class C12(Check):
         'termination of the production engine is not used: every C12 theorem holds for every fuel and every outcome',
         'at most one token is in the tokenizer push-back queue when it is drained (true of every grammar in the code '
         'base; the driver reports `unsupported` otherwise and the case is skipped and counted)',
-        'logging handlers and the tokenizer regex cache are not part of the modelled state (pure memo / output only)',
+        'logging handlers are not part of the modelled state (output only); the memo tables are (Model/GlobalsMemo.lean): '
+        'arguments of Tokenizer(...) are None / dict / list of pairs, str() of the cache key is injective on them, '
+        're.compile is a parameter of the theorems (cases in which it raises are counted and skipped by the memo stream)',
     )
     rule = ('engine: random environments of 1-3 grammars (Sequence/Choice/Prod trees, all flags, nested parsers through '
             'toSeq, hand-back discipline kept in 2/3 and broken on purpose in 1/3 of the cases) x token streams from a '
@@ -178,8 +184,11 @@ class C12(Check):
             'savedTokens and _pushed. histories: 20-60 calls over all entry points, helper functions, constructors with '
             'malformed text, csscombine, resolveImports, serialisation, explicit settings; faults: undecodable bytes, '
             'missing file, fetcher raising OSError/ValueError/RuntimeError or re-entering the library, raising parsers. '
+            'memo: histories of 5-18 Tokenizer(macros, productions) / settings.set steps over 10 x 9 argument shapes '
+            'derived from the real tables, each in a fresh process; LazyRegex: catalogue and sampled profile patterns x '
+            'random method calls. '
             'non-trivial = an engine case in which a token was handed back, pushed or popped, or a history that '
-            'contains at least two different fault classes')
+            'contains at least two different fault classes, or a memo history with a hit and at least three kinds of outcome')
 
     # ------------------------------------------------------------------------------------------
     def translate(self, ctx):
